@@ -205,28 +205,29 @@ const (
 )
 
 type c02Scenario struct {
-	r        *gen.Rng
-	home     int // 0: leaf written in m; 1: leaf written in a grouping of i, used from m
-	grouping bool
-	uses     int
-	frames   [3][]*c02Typedef // plLocal, plAncestor, plGrouping
-	mTop     []*c02Typedef
-	mSub     []*c02Typedef
-	iTop     []*c02Typedef
-	mIdents  []c02Ident
-	iIdents  []c02Ident
-	mOrder   []int // order the identities of m / i are written in (an identity may precede its base)
-	iOrder   []int
-	idShape  string   // how the hierarchy of i was grown
-	probes   []string // texts tried against the identityref type (identity names, qualified or not, unknown names)
-	noImport bool
-	leafList bool
-	leafType *c02Stmt
-	leafDef  []string // nil = none
-	edgeLeaf bool     // the leaf is string-like: default texts range over c02EdgeTexts
-	leafUnit string
-	nameSeq  int
-	kind     string
+	r         *gen.Rng
+	home      int // 0: leaf written in m; 1: leaf written in a grouping of i, used from m
+	grouping  bool
+	uses      int
+	frames    [3][]*c02Typedef // plLocal, plAncestor, plGrouping
+	mTop      []*c02Typedef
+	mSub      []*c02Typedef
+	iTop      []*c02Typedef
+	mIdents   []c02Ident
+	iIdents   []c02Ident
+	mOrder    []int // order the identities of m / i are written in (an identity may precede its base)
+	iOrder    []int
+	idShape   string   // how the hierarchy of i was grown
+	probes    []string // texts tried against the identityref type (identity names, qualified or not, unknown names)
+	noImport  bool
+	leafList  bool
+	leafType  *c02Stmt
+	leafDef   []string // nil = none
+	edgeLeaf  bool     // the leaf is string-like: default texts range over c02EdgeTexts
+	edgeChain bool
+	leafUnit  string
+	nameSeq   int
+	kind      string
 	// leafref support
 	tgtSibling *c02Stmt // type of leaf "tgt" next to the leaf under test
 	tgtSibList bool
@@ -347,7 +348,7 @@ func (s *c02Scenario) chain(depth int, builtin string, per func(level int, st *c
 	}
 	for i := depth - 1; i >= 0; i-- {
 		td := &c02Typedef{Name: names[i], Type: stmts[i+1]}
-		if s.r.Chance(2, 5) {
+		if s.r.Chance(2, 5) || s.edgeChain && s.r.Chance(1, 3) {
 			d := dflt()
 			td.Default = &d
 		}
@@ -431,6 +432,7 @@ func (s *c02Scenario) genString() {
 		b = "binary"
 	}
 	pats := []string{"[a-z]+", "a.*", ".*b", "[0-9a-f]*", "x|y|zz", "[0-9]+"}
+	s.edgeChain = true // string-like: defaults are stated more often, over the edge texts
 	s.leafType = s.chain(s.depth(), b, func(level int, st *c02Stmt, isBase bool) {
 		if s.r.Chance(1, 2) {
 			st.Lengths = []string{gen.Pick(s.r, []string{
@@ -449,7 +451,7 @@ func (s *c02Scenario) genString() {
 
 // c02EdgeTexts: texts a default or units statement of a string-like type may state. The empty string
 // is a stated value: "states the empty string" and "states nothing" are different statements.
-var c02EdgeTexts = []string{"", "", "", " ", "a b", "0", "abcd", "x;y", "a{b}", "none", "  ", "-"}
+var c02EdgeTexts = []string{"", "", "", "", "", " ", "a b", "0", "abcd", "x;y", "a{b}", "none", "  ", "-"}
 
 // units texts: a quoted argument with blanks or punctuation is one units value like any other
 var c02EdgeUnits = []string{"m s", " ", "%", "a;b", "k", "1/s", "a{b}"}
